@@ -22,9 +22,9 @@ fn p(s: &'static str) -> N {
 fn expr_grammar(quick: bool) -> Grammar {
     Grammar {
         atoms: if quick {
-            vec![N::Int(1), N::Int(2), p("+"), p("*"), p("dup"), p("swap"), p("drop"), p("\"s\""), N::Flag(true)]
+            vec![N::Int(1), N::Int(2), p("+"), p("*"), p("dup"), p("swap"), p("drop"), p("\"s\""), N::Flag(true), p("^hex"), p("k")]
         } else {
-            vec![N::Int(1), N::Int(2), N::Int(3), p("+"), p("*"), p("-"), p("dup"), p("swap"), p("drop"), p("over"), p("\"s\""), N::Flag(true), N::Flag(false), N::Nil]
+            vec![N::Int(1), N::Int(2), N::Int(3), p("+"), p("*"), p("-"), p("dup"), p("swap"), p("drop"), p("over"), p("\"s\""), N::Flag(true), N::Flag(false), N::Nil, p("^hex"), p("7 \"t\" insert-tag"), p("k")]
         },
         if_: true,
         if_else: !quick,
@@ -91,7 +91,7 @@ fn observe(base: &Xstate, src: &str) -> Result<Obs, String> {
 }
 
 // contexts: (name, prefix, suffix, needs exactly one value, the hole is already inside a meta block)
-const CONTEXTS: [(&str, &str, &str, bool); 11] = [
+const CONTEXTS: [(&str, &str, &str, bool); 12] = [
     ("top", "", "", false),
     ("stack-neighbours", "7", "8", false),
     ("vector", "[", "]", false),
@@ -103,6 +103,7 @@ const CONTEXTS: [(&str, &str, &str, bool); 11] = [
     ("outer-meta-vector", "#( [", "] #)", false),
     ("variable", "", "var x x x", true),
     ("after-definition", ": q 5 ; q", "q", false),
+    ("definition-with-local-named-like-a-constant", ": w local k [", "] k ; 3 w", false),
 ];
 
 pub fn run(cfg: &Cfg) -> i32 {
@@ -110,7 +111,7 @@ pub fn run(cfg: &Cfg) -> i32 {
     let mut ev = Evidence::new("C11", cfg);
     let quick = cfg.quick();
     let gr = expr_grammar(quick);
-    let maxn = if quick { 5 } else { 6 };
+    let maxn = if quick { 4 } else { 6 };
     let n_expr = AtomicU64::new(0);
     let n_expr_ok = AtomicU64::new(0);
     let n_cmp = AtomicU64::new(0);
@@ -126,6 +127,7 @@ pub fn run(cfg: &Cfg) -> i32 {
     par_run(cfg.threads, tasks_all.len(), 1, |_t, pull| {
         let base = {
             let mut xs = boot();
+            xs.eval("#( 5 const k #)").unwrap();
             let _ = xs.set_insn_limit(Some(5000));
             xs
         };
@@ -151,9 +153,19 @@ pub fn run(cfg: &Cfg) -> i32 {
                     }
                     let vals: Vec<Cell> = (0..fx.data_depth()).rev().map(|i| fx.get_data(i).unwrap().clone()).collect();
                     let lits: Option<Vec<String>> = vals.iter().map(literal).collect();
-                    let Some(lits) = lits else {
-                        bump(&mut local, "expr:value-not-printable(skipped)");
-                        return;
+                    let lits = match lits {
+                        Some(l) => l,
+                        None => {
+                            // e.g. a tagged value: no literal spelling. A single-valued expression can
+                            // still be inlined as code: C[#( e #)] must equal C[e]
+                            if vals.len() != 1 {
+                                bump(&mut local, "expr:value-not-printable(skipped)");
+                                return;
+                            }
+                            bump(&mut local, "expr:inlined-as-code");
+                            // the constant k is 5: spell it out, the context may bind the name k otherwise
+                            vec![flat_src.split(' ').map(|w| if w == "k" { "5" } else { w }).collect::<Vec<_>>().join(" ").trim().to_string()]
+                        }
                     };
                     n_expr_ok.fetch_add(1, Ordering::Relaxed);
                     bump(&mut local, &format!("expr:values={}", lits.len().min(4)));
